@@ -154,7 +154,23 @@ fn all_tables(t: &KTable, path: &mut Path, out: &mut Vec<Path>) {
 fn k_to_rval(n: &KNode) -> RVal {
     match n {
         KNode::Val(v) => v.clone(),
-        KNode::Table(t) => RVal::table(t.entries.iter().map(|(k, x)| (k.clone(), undot(k_to_rval(x)))).collect()),
+        // a child table is converted (Table::into_inline_table builds a plain inline table); a
+        // child that already is a value is left alone, so an inline table that was spelled
+        // through dotted keys keeps that flag (and prints nothing once it is empty)
+        KNode::Table(t) => RVal::table(
+            t.entries
+                .iter()
+                .map(|(k, x)| {
+                    (
+                        k.clone(),
+                        match x {
+                            KNode::Val(v) => v.clone(),
+                            other => undot(k_to_rval(other)),
+                        },
+                    )
+                })
+                .collect(),
+        ),
         KNode::Aot(v) => RVal::Array(v.iter().map(|t| k_to_rval(&KNode::Table(t.clone()))).collect()),
     }
 }
